@@ -9,6 +9,7 @@ import Pcore.Proofs.ImmutWrites
 import Pcore.Generated.FieldWrites
 import Pcore.Proofs.ImmutMutable
 import Pcore.Generated.SerCalls
+import Pcore.Generated.MutatorCalls
 /-!
 # C08 — Values are immutable: no operation disturbs a value obtained earlier
 
@@ -107,6 +108,9 @@ Full statement / proved / missing
   `C08_serializer_reads_only` — every method the serializer invokes is a reviewed read-only / emitting / own method, and
                       every assignment in it goes to its own state (the memo table `sc.values` keyed by identity,
                       `refIndex`, `path`), to a plain local or into storage it created (`decide` on family sercalls).
+  `C08_mutator_calls_safe` — the exported methods of value structs that assign their receiver's fields (names computed from
+                      family fieldwrites) are called, outside package types, only at the reviewed places (family
+                      mutatorcalls; `decide`).
 * MUTABLEHASHVALUE AS AN OBJECT (`Model/ImmutMutable.lean`: one object whose storage `Put`/`PutAll` replace, plus the `Hash`
                       methods it inherits by embedding and — since /repo 1d333d3 — its own `Delete` / `DeleteAll` /
                       `Entries` / `Unique`; beyond the builder view of `Model/Coll.lean`):
@@ -585,6 +589,14 @@ theorem C08_serializer_reads_only : SerFactsSafe serCalls serWrites := by decide
 example : ¬ SerFactsSafe ("PutAll" :: serCalls) serWrites := by decide
 example : ¬ SerFactsSafe serCalls (("context.toData", "param") :: serWrites) := by decide
 example : ¬ SerFactsSafe serCalls (("context.process", "local-through") :: serWrites) := by decide
+
+/-- obligation over the regenerated mutator calls: outside package types, the exported methods that assign a value's
+    fields (Put / PutAll of a MutableHashValue; Resolve / InitFromHash / Initialize / Constructor … of types and objects) are
+    called only at the reviewed places — none of them in the serializer, the printer, the loader's lookups -/
+theorem C08_mutator_calls_safe : MutatorCallsSafe mutatorNames mutatorCalls := by decide
+
+example : ¬ MutatorCallsSafe mutatorNames (("serialization", "context.toData", "Put") :: mutatorCalls) := by decide
+example : ¬ MutatorCallsSafe (mutatorNames.filter (· != "PutAll")) mutatorCalls := by decide
 
 /-- the table of seeded change C08-s11 -/
 def tblMemo : List FieldWrite := ⟨"deferred", "arguments", "deferred.Resolve", .write⟩ :: fieldWrites
